@@ -94,7 +94,7 @@ type typedExpr struct {
 }
 
 func typedCase(seed uint64, idx int) (g *gen, doc interface{}, generic interface{}, exprs []typedExpr) {
-	g = &gen{r: mix(seed, "typed", idx), budget: 40}
+	g = &gen{r: mix(seed, "typed", idx), budget: 40, extreme: true}
 	root := reflect.New(tRoot).Elem()
 	root.Field(0).SetString(g.r.pick([]string{"title", "", "héllo"}))
 	root.Field(1).SetFloat(float64(g.r.intn(10)))
